@@ -593,7 +593,7 @@ sraRgnOffset(sraRegion *dst, int dx, int dy) {
 }
 
 sraRegion *sraRgnBBox(const sraRegion *src) {
-  int xmin=((unsigned int)(int)-1)>>1,ymin=xmin,xmax=1-xmin,ymax=xmax;
+  int xmin=((unsigned int)(int)-1)>>1,ymin=xmin,xmax=-xmin-1,ymax=xmax;
   sraSpan *vcurr, *hcurr;
 
   if(!src)
